@@ -349,7 +349,7 @@ def check(tier, seed):
         R.count("default_blank" if case["default"] == b"" else "default_nonblank")
         for o in case["ops"]:
             R.count("op_" + o[0])
-        bad = oracle(case, outs, aux) or subclass_check(case, outs)
+        bad = oracle(case, outs, aux) or ((tier == "quick" or R.evaluations % 4 == 0) and subclass_check(case, outs)) or None
         if bad:
             R.spec_violations.append((bad, case))
         if nontrivial(case):
